@@ -59,7 +59,11 @@ def build(repo='/repo'):
 
 def run(scenario, args, repo='/repo', timeout=300):
     b = build(repo)
-    p = subprocess.run([b, scenario, '-'], input=json.dumps(args), capture_output=True, text=True, timeout=timeout)
+    try:
+        p = subprocess.run([b, scenario, '-'], input=json.dumps(args), capture_output=True, text=True, timeout=timeout)
+    except subprocess.TimeoutExpired:
+        # the real code did not come back: for a scenario that offers hostile input this is itself the observation (a stall)
+        return dict(panicked=True, timed_out=True, stderr='scenario %s did not finish within %d s' % (scenario, timeout), rc=None)
     if p.returncode != 0:
         return dict(panicked=True, stderr=p.stderr[-800:], rc=p.returncode)
     return json.loads(p.stdout.strip().split('\n')[-1])
